@@ -39,6 +39,7 @@ type Vars struct {
 	AlwaysGen bool // gen is declared always=True
 	Sabotage  bool // leaf's body removes .dawn/build/temp, so that recording its result fails
 	Colon     bool // target //pkg:co:lon exists
+	OtherAll  bool // target //pkg:other_all exists (its record name has the record name of //pkg:other as a proper prefix)
 	Diamond   bool // leaf also depends on gen, which mid reaches through the generated file (a shared dependency)
 	Missing   bool // top also depends on a target that does not exist
 	Cycle     bool // leaf depends on top (a dependency cycle when the edge top->leaf exists)
@@ -58,6 +59,7 @@ const (
 	tTop   = "//:top"
 	tLeaf  = "//pkg:leaf"
 	tOther = "//pkg:other"
+	tOtherAll = "//pkg:other_all"
 	tColon = "//pkg:co:lon" // a target whose name contains a colon (legal to declare, awkward to spell as a label)
 )
 
@@ -185,6 +187,9 @@ def _top(t):
 	if v.Other {
 		p.WriteString("def _other(t):\n    step(\"other\")\n    emit(\"out/other\", \"other\")\ntarget(name=\"other\", function=_other)\n")
 	}
+	if v.OtherAll {
+		p.WriteString("def _other_all(t):\n    step(\"other_all\")\n    emit(\"out/other_all\", \"other_all\")\ntarget(name=\"other_all\", function=_other_all)\n")
+	}
 	if v.Colon {
 		p.WriteString("def _colon(t):\n    step(\"co:lon\")\n    emit(\"out/colon\", \"colon\")\ntarget(name=\"co:lon\", function=_colon)\n")
 	}
@@ -207,7 +212,7 @@ func (v Vars) env(t string) string {
 		return fmt.Sprintf("E%v C%v", v.Edge, v.Chatty)
 	case tLeaf:
 		return fmt.Sprintf("D%d F%d C%v S%v", v.D, v.FlagV, v.Chatty, v.Sabotage)
-	case tOther, tColon:
+	case tOther, tColon, tOtherAll:
 		return ""
 	}
 	panic(t)
@@ -289,6 +294,9 @@ func (v Vars) targets() []string {
 	if v.Colon {
 		ts = append(ts, tColon)
 	}
+	if v.OtherAll {
+		ts = append(ts, tOtherAll)
+	}
 	return ts
 }
 
@@ -333,6 +341,8 @@ func outputsOf(t string) []string {
 		return []string{"out/other"}
 	case tColon:
 		return []string{"out/colon"}
+	case tOtherAll:
+		return []string{"out/other_all"}
 	}
 	return nil
 }
